@@ -143,9 +143,16 @@ class Formatter(FormatterInterface):
         rhs = self(oper.rhs)
 
         # Apply parentheses
-        if oper.lhs.precedence >= oper.precedence:
+        # Python chains comparisons: `a < b == c` means `a < b and b == c`
+        comparisons = (L.EQ, L.NE, L.LT, L.GT, L.LE, L.GE)
+        chained = isinstance(oper, comparisons)
+        if oper.lhs.precedence >= oper.precedence or (
+            chained and isinstance(oper.lhs, comparisons)
+        ):
             lhs = f"({lhs})"
-        if oper.rhs.precedence >= oper.precedence:
+        if oper.rhs.precedence >= oper.precedence or (
+            chained and isinstance(oper.rhs, comparisons)
+        ):
             rhs = f"({rhs})"
 
         # Return combined string
